@@ -46,15 +46,15 @@ RULE = ("cases = (program seed, number of steps 2-6, dtype, per-step annotations
         "chunks, annotations).")
 ASSUMPTIONS = ["dask.get (synchronous scheduler) on a fully materialised unfused graph defines the expected block values",
                "Task.dependencies of a materialised task are the dependencies of that task"]
-BUDGET = {"quick": 50, "thorough": 540}
+BUDGET = {"quick": 100, "thorough": 540}
 FLOORS = {
-    "quick": {"evaluations": 1350, "distinct_nontrivial": 1300,
-              "counters": {"hlg_cull_checked": 18000, "hlg_cull_removed_tasks": 16000, "hlg_cull_twice_checked": 4500,
-                           "layer_cull_checked": 47000, "layer_cull_twice_checked": 11000, "task_deps_compared": 110000,
-                           "optimize_blockwise_calls": 1350, "fused_values_checked": 5300, "layers_absorbed": 3500,
-                           "ann_fused_groups_with_differing_annotations": 600, "fuse_roots_merged_layers": 500,
-                           "fuse_roots_ann_groups_with_annotations": 30, "complete_subset_spaces": 900},
-              "sets": {"annotation_combinations": 550, "layer_features": 18}, "max_skipped_fraction": 0.05},
+    "quick": {"evaluations": 1100, "distinct_nontrivial": 1050,
+              "counters": {"hlg_cull_checked": 14500, "hlg_cull_removed_tasks": 13000, "hlg_cull_twice_checked": 3600,
+                           "layer_cull_checked": 38000, "layer_cull_twice_checked": 9000, "task_deps_compared": 88000,
+                           "optimize_blockwise_calls": 1100, "fused_values_checked": 4300, "layers_absorbed": 2800,
+                           "ann_fused_groups_with_differing_annotations": 500, "fuse_roots_merged_layers": 400,
+                           "fuse_roots_ann_groups_with_annotations": 24, "complete_subset_spaces": 750},
+              "sets": {"annotation_combinations": 450, "layer_features": 18}, "max_skipped_fraction": 0.05},
     "thorough": {"evaluations": 13500, "distinct_nontrivial": 13000,
                  "counters": {"hlg_cull_checked": 220000, "hlg_cull_twice_checked": 55000, "layer_cull_checked": 560000,
                               "layer_cull_twice_checked": 140000, "task_deps_compared": 1300000, "fused_values_checked": 64000,
@@ -111,7 +111,7 @@ def cases(tier, seed):
                 yield {"space": "exhaustive", "pseed": 1000 + n, "nops": n, "dtype": "int64", "anns": anns, "chain_only": True,
                        "shape": [4, 4], "chunks": [[2, 2], [1, 3]], "root": "ones", "lat": key}
     # ---- random stacks ---------------------------------------------------------------------------------------------------
-    n = 2500 if tier == "quick" else 30000
+    n = 2000 if tier == "quick" else 30000
     for i in range(n):
         nops = rng.choice((2, 2, 3, 3, 4, 4, 5, 6))
         mode = rng.random()
